@@ -142,6 +142,9 @@ func (m *Map[K, V]) Replace(old, new K, v V) {
 		// Delete "old" from the index and update "new" to point to idx
 		delete(m.index, old)
 		m.index[new] = idx
+	} else if !exists {
+		// old == new, but the key is not in the map yet: index the new item.
+		m.index[new] = idx
 	}
 
 	// Put the item into m.items at idx.
